@@ -219,3 +219,18 @@ PROPS["C09"] = {
     "outside": ["bisection (verifySkipping) beyond single steps", "the HTTP provider", "evidence construction in handleConflictingHeaders beyond the cannot-back case", "symbolic header times (they are hashed and signed: concrete here)"],
     "timeout_quick": 420, "timeout_thorough": 2400,
 }
+
+PROPS["C20"] = {
+    "files": ["light/rpc/client.go", "types/tx.go", "types/results.go", "state/store.go"],
+    "groups": [
+        {"dir": "light/rpc",
+         "quick": ["VP_C20_Block", "VP_C20_BlockByHash", "VP_C20_BlockResults", "VP_C20_Tx", "VP_C20_CommitVals"],
+         "thorough": []},
+    ],
+    "bounds": {
+        "verifying client": "a concrete 3-block chain (2, 3, 0 transactions) whose header hashes are the genuine functions of the content (data hash by the real Txs.Hash, LastResultsHash by the real state.ABCIResponsesResultsHash of the previous block's DeliverTx results); light client = the C09 contract (returns the verified light block of a height); backend honest or falsifying one thing: block body under the verified header (via the wire format), a self-consistent other block, a DeliverTx result code, the returned transaction bytes, a valid proof of another transaction, the index, the proof's own data; heights 1..2, both transactions; every proof the full-node side builds (Txs.Proof) validates against the data hash",
+    },
+    "stubs": ["rpcclient.Client backend and LightClient = harness objects", "sha256 concrete"],
+    "outside": ["ABCIQueryWithOptions / proof runtime (IAVL-style ops)", "ConsensusParams, BlockchainInfo, websocket subscriptions", "symbolic transaction bytes (concrete here)"],
+    "timeout_quick": 300, "timeout_thorough": 600,
+}
